@@ -42,6 +42,7 @@ type char struct {
 	id           key.TargetID
 	info         info.Character
 	canUseTalent bool
+	talentTargs  []key.TargetID
 }
 
 func NewInstance(engine engine.Engine, id key.TargetID, charInfo info.Character) info.CharInstance {
